@@ -115,6 +115,14 @@ CHECKS = {
         'The full statement "a state at rest has no blocked acquire" is REFUTED in Coq (C16_full_refuted) by a recorded real trace that is replayed on the implementation on every run; the progress theorems sketched in DESIGN were dropped because the faithful model exhibits stuck states. '
         'On the real Pool every generated schedule is driven to quiescence by a fair, progress-based scheduler (all holders release, connects complete, ticks/GC fire) and every acquire must have returned or received the connect error; starved requests are classified by three known-finding ids, anything else is a VIOLATION.',
    note='Same model, harness and trusted base as C15. Liveness itself is NOT proved (it is false of the pinned code in the three known-finding classes); the fair-drain monitor is an exploration, not a proof. No axioms.'),
+ 'C08': dict(
+   category='proof', design_ref='DESIGN.md section 4, C08 (+ section 9 change log)',
+   technique='Coq proofs over all expression trees / function schemas / scripts about a model of DML recording, volatility inference and the statement-kind capability dispatch (flag values and the isinstance chain regenerated from source by a fail-closed translator); differential correspondence vs the real Compiler.compile; independent SQL/AST ground-truth monitors',
+   text='PARTIAL (the migration case is a known finding). 12 machine-checked theorems: a write anywhere inside an expression (any nesting position: WITH, FOR, shapes, FILTER/ORDER BY, UNLESS CONFLICT, calls of user functions to any depth) is recorded (C08_mod_complete_expr); an accepted statement that can write carries MODIFICATIONS unless it is CREATE/COMMIT MIGRATION (C08_mod_complete), and unconditionally carries a WRITE capability (C08_write_complete / C08_readonly_no_write); '
+        'a function whose body can write is stored Modifying; every one of the 162 statement classes gets DDL / TRANSACTION / SESSION_CONFIG / PERSISTENT_CONFIG as required by the generated dispatch chain (C08_kind_caps); group capabilities are the union of the units. Capability flag values and the _compile_dispatch_ql chain are regenerated from enums.py / compiler.py on every run (class table cross-checked by issubclass). '
+        'Tie: the complete real compiler.compile (down to _make_query_unit and QueryUnitGroup.append) on generated statements x nesting contexts x DML kinds x function/alias/global holders over a schema built through real migrations; per-unit capabilities, len(dml_exprs), group capabilities, reject class and stored volatilities compared with the extracted model; '
+        'monitors independent of the model: an INSERT/UPDATE/DELETE on a user table in the emitted SQL text or pgast tree requires MODIFICATIONS; DML in the parsed statement (through function bodies) requires MODIFICATIONS; kind capabilities; group = union.',
+   note='Trusted: Coq kernel; extraction; translator; harness; vrt substrate (real parser substitute, std schema). Not modelled: types, cardinality, scoping, SQL generation (writes are read off the emitted SQL / AST; nothing is executed). Documented model deviations (function DDL / DESCRIBE / CONFIGURE inside migration blocks not compared). No axioms.'),
 }
 
 NA_DEFAULT = 'check not built yet (round 1 in progress); see DESIGN.md section 6'
